@@ -184,6 +184,14 @@ class Inst:
             ys = res['cons'].get(str(CG_LINEAR), [])
             for i, mt in self.match.items():
                 if mt['row'] >= len(ys) or ys[mt['row']] != y[i]: p.append('presolved dual not on the matched row (%s)' % self.kind_of(i))
+                if mt['slack'] is not None and len(xs) == self.nv:
+                    # the warm start of a slack is a slack of its own constraint at the given point (mp computes body - lb although the
+                    # delivered row is body + s = ub; either orientation, clipped to the slack's bounds or not, is taken - see DESIGN 7.2)
+                    _, lin, lb, ub = self.m.acons[i]
+                    body = sum(cf * x[v] for v, cf in lin.items())
+                    ok = [body - lb, ub - body]; ok += [min(max(t, 0.0), ub - lb) for t in ok]
+                    if not any(abs(xs[mt['slack']] - t) <= 1e-9 * max(1.0, abs(t)) for t in ok):
+                        p.append('warm start of the slack of a range constraint is not a slack of that constraint at the given point (%s)' % self.kind_of(i))
             return p
         return 'presolve', kw, chk
 
@@ -345,6 +353,22 @@ def work_sep(job):
                 viols.append(('C04 postsolve %s: value placed on the rows of one constraint is reported for another constraint (separable pair) cfg=%s' % (kind, cfgname),
                               {'model': m.describe(), 'rows_with_value': tgt, 'result': ys, 'sides': {str(k): v for k, v in side.items()}},
                               {'nl': m.nl(), 'acc': acc, 'ops': [['postsolve', dict(kind=kind, vars=vec([0] * nv), cons=cons_arg(lambda s_: val if s_ == tgt else 0))]]}))
+    # a mark on one single delivered row (IIS membership, an integer suffix) reaches the constraint the row was derived from
+    for kind, val in (('IIS', 1), ('GenericInt', 7)):
+        for (g0, k0), sd in side.items():
+            if sd not in 'AB': continue
+            _srv.request('convert', nl=m.nl(), opts='', acc=acc)
+            arg = ';'.join('%d:%s' % (g, vec([val if (g, k) == (g0, k0) else 0 for k in range(len(cs))])) for g, cs in groups.items())
+            res = _srv.request('postsolve', kind=kind, vars=vec([0] * nv), cons=arg)
+            st['transfers'] += 1
+            if res.get('status') != 'ok': continue
+            ys = res['res']['cons'].get('0', [])
+            st['single_row_marks'] += 1
+            if len(ys) >= 2 and ys[0 if sd == 'A' else 1] == 0:
+                viols.append(('C04 postsolve %s: a mark on a single delivered row does not reach the constraint the row was derived from (separable pair) cfg=%s' % (kind, cfgname),
+                              {'model': m.describe(), 'group': g0, 'row': k0, 'row_type': groups[g0][k0]['type'], 'side': sd, 'result': ys},
+                              {'nl': m.nl(), 'acc': acc, 'ops': [['postsolve', dict(kind=kind, vars=vec([0] * nv), cons=arg)]]}))
+                break
     for kind, val in (('LazyUserCutFlags', 1), ('GenericInt', 5), ('GenericDbl', 2.5)):   # Basis has the documented row:=equ slack mapping
         for isrc, other in ((0, 'B'), (1, 'A')):
             _srv.request('convert', nl=m.nl(), opts='', acc=acc)
@@ -353,6 +377,18 @@ def work_sep(job):
             res = _srv.request('presolve', **kw)
             st['transfers'] += 1
             if res.get('status') != 'ok': continue
+            # the other direction: the value reaches every delivered row that belongs to the constraint it was given for (a row
+            # whose variables are connected to that constraint's variables only can have been derived from nothing else)
+            mine = 'A' if other == 'B' else 'B'
+            for (g, k), sd in side.items():
+                ys = res['res']['cons'].get(str(g), [])
+                if sd == mine:
+                    st['rows_expected_to_receive'] += 1
+                    if k >= len(ys) or ys[k] == 0:
+                        viols.append(('C04 presolve %s: value given for a constraint does not reach a row derived from it (separable pair) cfg=%s' % (kind, cfgname),
+                                      {'model': m.describe(), 'given_for_constraint': isrc, 'group': g, 'row': k, 'row_type': groups[g][k]['type'],
+                                       'result': res['res']['cons']}, {'nl': m.nl(), 'acc': acc, 'ops': [['presolve', kw]]}))
+                        break
             for g, ys in res['res']['cons'].items():
                 for k, y in enumerate(ys):
                     if y != 0 and side.get((int(g), k)) == other:
